@@ -236,15 +236,19 @@ def gen_world(rng):
                               ('poke', 'foo_obj_prod', 'poke')):      # the slot "poke" is declared through a callback typedef
         own = inv = None
         r = rng.random()
+        vf_anns = [('finish-func', ['load_done']), ('sync-func', ['load_now']), ('async-func', ['load_later'])]
         if r < 0.3:
             own = gen_block(rng)
             own['skip'] = False
+            if rng.random() < 0.5:
+                own['anns'] = [rng.choice(vf_anns)]
             blocks.append(('FooObjClass::%s' % slot, own, render_block('FooObjClass::%s' % slot, own, ['self'] + (['x'] if slot != 'lonely' else []))))
         if method and (via or rng.random() < 0.8):
             inv = gen_block(rng)
             inv['skip'] = False
+            inv['anns'] = [rng.choice(vf_anns)] if rng.random() < 0.4 else []
             if via:
-                inv['anns'] = [('virtual', [via])]
+                inv['anns'] = [('virtual', [via])] + inv['anns']
             blocks.append((method, inv, render_block(method, inv, ['self', 'x'])))
         vf[slot] = dict(own=own, invoker_block=inv, method=method)
     if rng.random() < 0.4:
@@ -455,6 +459,12 @@ def main(tier, seed):
                 continue
             if info['method'] and v.get('invoker') != info['method'][len('foo_obj_'):]:
                 ck.failing_input('a virtual method does not name its invoker', case, detail=v.attrib)
+            src_block = info['own'] if info['own'] is not None else info['invoker_block']
+            if src_block is not None and not (info['own'] is not None and info['invoker_block'] is not None):
+                for an, opts in src_block['anns']:
+                    if an in ('finish-func', 'sync-func', 'async-func') and v.get(S.GLIB + an) != opts[0]:
+                        ck.failing_input('(%s %s) written for a virtual method (in its own block, or inherited from its invoker) is not its glib:%s'
+                                         % (an, opts[0], an), case, detail=v.attrib)
             if info['own'] is not None and info['invoker_block'] is None:
                 tag_clauses(ck, S, v, info['own'], case)
             elif info['own'] is None and info['invoker_block'] is not None:
